@@ -11,11 +11,21 @@ package authserver
 //   J is blacklisted  ⇔  R authenticated a registered client ∧ R carried the genuine, untampered T
 //   ValidateJWT(T) fails ⇔ J is blacklisted ;  UserinfoHandler(T) is 401 ⇔ J is blacklisted.
 // A forged token that merely copies J (signed by another key) must not revoke T.
+//
+// Write faults: in one round out of three the credentials database refuses WRITES from the moment the revocation
+// request has been served until the presentations are over — every UPDATE of the blacklist table fails (trigger),
+// the store is reopened read-only (sqlite mode=ro), or a second connection holds the SQLite write lock past the
+// busy timeout. Reads keep working, so the revoked row is found and only the "last used" audit UPDATE of
+// tokens.IsIDBlacklisted fails: the oracle above must hold unchanged. The first caller after the request (the one
+// whose lookup is not served from the BlacklistCache) is UserinfoHandler in half of the rounds, ValidateJWT in
+// the others.
 
 import (
+	"context"
 	"crypto/ecdsa"
 	"crypto/elliptic"
 	crand "crypto/rand"
+	"database/sql"
 	"encoding/json"
 	"fmt"
 	"net/http"
@@ -28,6 +38,7 @@ import (
 	"time"
 
 	"github.com/golang-jwt/jwt/v5"
+	"github.com/tucats/ego/internal/caches"
 	"github.com/tucats/ego/internal/cli/settings"
 	"github.com/tucats/ego/internal/defs"
 	"github.com/tucats/ego/internal/language/tokens"
@@ -104,6 +115,55 @@ func TestVerifC22Revoke(t *testing.T) {
 		clients = nil
 	}()
 
+	// the other user of the credentials database: installs and lifts the write faults
+	other, err := sql.Open("sqlite", db)
+	if err != nil {
+		t.Fatalf("second connection: %v", err)
+	}
+
+	defer other.Close()
+
+	side, err := other.Conn(context.Background())
+	if err != nil {
+		t.Fatalf("second connection: %v", err)
+	}
+
+	defer side.Close()
+
+	sideExec := func(q string) {
+		if _, err := side.ExecContext(context.Background(), q); err != nil {
+			t.Fatalf("second connection: %s: %v", q, err)
+		}
+	}
+
+	setFault := func(kind string, on bool) {
+		switch {
+		case kind == "trigger" && on:
+			sideExec(`CREATE TRIGGER IF NOT EXISTS verif_refuse_update BEFORE UPDATE ON blacklist BEGIN SELECT RAISE(FAIL, 'verif: injected write failure'); END`)
+		case kind == "trigger":
+			sideExec(`DROP TRIGGER IF EXISTS verif_refuse_update`)
+		case kind == "lock" && on:
+			sideExec(`BEGIN IMMEDIATE`)
+		case kind == "lock":
+			sideExec(`ROLLBACK`)
+		case kind == "readonly":
+			// this server instance now has the credentials database open read-only (read-only remount / replica);
+			// a reopened instance starts with a cold lookup cache
+			tokens.Close()
+
+			dsn := "sqlite3://" + db
+			if on {
+				dsn = "sqlite3://file:" + db + "?mode=ro"
+			}
+
+			if err := tokens.SetDatabasePath(dsn); err != nil {
+				t.Fatalf("reopening the blacklist database (%s): %v", dsn, err)
+			}
+
+			caches.Purge(caches.BlacklistCache)
+		}
+	}
+
 	// ---- Resource Server: the real Initialize (discovery + JWKS over HTTP)
 	settings.Set(defs.OAuthProviderSetting, srv.URL)
 	settings.Set(defs.OAuthAudienceSetting, "ego-api")
@@ -147,6 +207,12 @@ func TestVerifC22Revoke(t *testing.T) {
 	actions := []string{"good-form", "good-basic", "good-form", "bad-secret", "unknown-client", "no-client", "forged-jti", "tampered", "none", "refresh-like"}
 	n := verifh.N(150, 800)
 
+	// rounds in which the write lock is held: each costs the store's 5 s busy timeout in real time
+	lockRounds := map[int]bool{}
+	for k := 0; k < verifh.N(1, 4); k++ {
+		lockRounds[5+11*k] = true
+	}
+
 	for i := 0; i < n; i++ {
 		sub := []string{"alice", "bob", "carol"}[r.Intn(3)]
 
@@ -157,7 +223,31 @@ func TestVerifC22Revoke(t *testing.T) {
 
 		seenBefore := r.Intn(2) == 0
 		action := actions[r.Intn(len(actions))]
+
+		fault := ""
+		if r.Intn(3) == 0 {
+			fault = []string{"trigger", "trigger", "trigger", "trigger", "readonly"}[r.Intn(5)]
+		}
+
+		userinfoFirst := r.Intn(2) == 0
+
+		if lockRounds[i] {
+			action, fault, userinfoFirst = "good-form", "lock", (i/11)%2 == 0
+		}
+
+		first := "ValidateJWT"
+		if userinfoFirst {
+			first = "UserinfoHandler"
+		}
+
 		input := fmt.Sprintf("round %d: AS-issued token sub=%s jti=%s; presented before the revocation request=%v; request=%s", i, sub, jti, seenBefore, action)
+		if fault != "" {
+			input += fmt.Sprintf("; WRITE FAULT on the credentials database after the request (%s: %s); first caller after the request=%s", fault,
+				map[string]string{"trigger": "every UPDATE of the blacklist table fails", "readonly": "store reopened with sqlite mode=ro",
+					"lock": "a second connection holds the write lock (BEGIN IMMEDIATE)"}[fault], first)
+		} else {
+			input += "; first caller after the request=" + first
+		}
 
 		if seenBefore {
 			if u, _, err := oauth.ValidateJWT(1, tok); err != nil || u != sub {
@@ -218,6 +308,20 @@ func TestVerifC22Revoke(t *testing.T) {
 			stats.Inc(fmt.Sprintf("revoke.%s.%d", action, status))
 		}
 
+		if fault != "" {
+			setFault(fault, true)
+		}
+
+		checkUserinfo := func() {
+			if st := userinfo(tok); (st == http.StatusUnauthorized) != want {
+				fail("userinfo-revoked", "UserinfoHandler 401 ⇔ revoked does not hold", input, fmt.Sprint(st), fmt.Sprint(want))
+			}
+		}
+
+		if userinfoFirst {
+			checkUserinfo()
+		}
+
 		for pass := 1; pass <= 2; pass++ {
 			u, _, err := oauth.ValidateJWT(1, tok)
 			if want && err == nil {
@@ -234,19 +338,29 @@ func TestVerifC22Revoke(t *testing.T) {
 			}
 		}
 
+		if !userinfoFirst {
+			checkUserinfo()
+		}
+
+		if fault != "" {
+			setFault(fault, false)
+		}
+
 		bl, blErr := tokens.IsIDBlacklisted(jti)
 		if blErr != nil || bl != want {
 			fail("revoke-handler-blacklist", "RevokeHandler blacklisted ⇔ (client authenticated ∧ genuine token) does not hold", input, fmt.Sprint(bl, blErr), fmt.Sprint(want))
-		}
-
-		if st := userinfo(tok); (st == http.StatusUnauthorized) != want {
-			fail("userinfo-revoked", "UserinfoHandler 401 ⇔ revoked does not hold", input, fmt.Sprint(st), fmt.Sprint(want))
 		}
 
 		stats.Inc("rounds")
 
 		if want {
 			stats.Inc("rounds.revoked")
+
+			if fault != "" {
+				stats.Inc("rounds.revoked.write-fault")
+				stats.Inc("rounds.revoked.write-fault." + fault)
+				stats.Inc("rounds.revoked.write-fault.first-caller-" + first)
+			}
 		}
 	}
 
